@@ -1,6 +1,7 @@
 import Driver.Common
 import Driver.C18
 import Driver.C09
+import Driver.C08
 import Driver.Registry
 
 def main (args : List String) : IO UInt32 := do
@@ -11,6 +12,7 @@ def main (args : List String) : IO UInt32 := do
     let t ← match model with
       | "c18" => Driver.C18.run ops impl
       | "c09" => Driver.C09.run ops impl
+      | "c08" => Driver.C08.run ops impl
       | "registry" => Driver.Registry.run ops impl
       | _ => do IO.eprintln s!"unknown model {model}"; return 2
     return (if t.diffs == 0 && t.oracleFails == 0 then 0 else 1)
